@@ -221,6 +221,24 @@ pub fn shard_size(rng: &mut Rng, k: usize, r: usize) -> usize {
     }
 }
 
+/// The same amount of data in another shape: f times as many shards of a
+/// f-th of the blocks, or the other way round (what re-sharding a payload
+/// does). Working spaces of equal size and different geometry come from this.
+pub fn reshape(rng: &mut Rng, rate: RateKind, k: usize, r: usize, size: usize) -> Option<(usize, usize, usize)> {
+    let blocks = size.div_ceil(64);
+    let f = *rng.pick(&[2usize, 2, 4, 8]);
+    let (k2, r2, b2) = if rng.chance(1, 2) {
+        (k * f, r * f, blocks.div_ceil(f))
+    } else {
+        (k.div_ceil(f), r.div_ceil(f), blocks * f)
+    };
+    if k2 == 0 || r2 == 0 || b2 == 0 || b2 * 64 > 1 << 22 || k2.max(r2) > 2048 || !rate_ok(rate, k2, r2) {
+        return None;
+    }
+    let size2 = if rng.chance(1, 2) { b2 * 64 } else { b2 * 64 - 2 * rng.range(1, 31) };
+    Some((k2, r2, size2))
+}
+
 pub fn size_class(size: usize) -> &'static str {
     if size < 64 {
         "lt64"
